@@ -636,6 +636,27 @@ impl Env {
         for (k, v) in self.notes.lock().unwrap().iter() {
             coverage.insert(k.clone(), v.clone());
         }
+        // companion runs of the same check under another build (e.g. C11 with the `small` feature)
+        if let Ok(list) = std::env::var("VH_EMBED") {
+            let mut comp = vec![];
+            for f in list.split(',').filter(|f| !f.is_empty()) {
+                if let Ok(text) = std::fs::read_to_string(f) {
+                    if let Ok(v) = serde_json::from_str::<J>(&text) {
+                        comp.push(json!({
+                            "file": f,
+                            "tier": v["tier"],
+                            "seed": v["seed"],
+                            "violations": v["violations"],
+                            "evaluations": v["coverage"]["evaluations"],
+                            "distinct_nontrivial": v["coverage"]["distinct_nontrivial"],
+                            "checks": v["coverage"]["checks"],
+                            "wall_s": v["wall_s"],
+                        }));
+                    }
+                }
+            }
+            coverage.insert("companion_runs".into(), J::Array(comp));
+        }
         let ev = json!({
             "property_id": self.prop,
             "tier": if self.tier == Tier::Quick {"quick"} else {"thorough"},
@@ -648,7 +669,8 @@ impl Env {
         });
         let dir = format!("{}/evidence", self.root);
         let _ = std::fs::create_dir_all(&dir);
-        let path = format!("{}/{}.json", dir, self.prop);
+        let name = std::env::var("VH_EVIDENCE_NAME").unwrap_or_else(|_| self.prop.clone());
+        let path = format!("{}/{}.json", dir, name);
         std::fs::write(&path, serde_json::to_string_pretty(&ev).unwrap() + "\n").unwrap();
         println!(
             "{}: tier={:?} seed={} evaluations={} distinct_nontrivial={} violations={} wall={:.1}s",
